@@ -59,6 +59,13 @@ def run(ctx: Ctx) -> Result:
         ksum = sum(int.from_bytes(x, 'little') for x in y) % L
         if int.from_bytes(k, 'little') % L != ksum: viol('final key is not the sum of all secrets', inp, hex(ksum), k.hex())
         if not A.verify_lock_key(Y[n - 1], k): viol('final key does not open the last lock', inp, 'True', False)
+        # hop i's tweak point is the sum of the points of secrets 0..i - judged with the module's own key test on the *raw* sums
+        # (hop 0's key is the raw sample, which need not be reduced mod L)
+        raw = 0
+        for i in range(n):
+            raw += int.from_bytes(y[i], 'little')
+            if i == 0 and not A.verify_lock_key(Y[0], y[0]): viol('verify_lock_key(Y_0, y_0) with the raw first secret', inp, 'True', False)
+            if not A.verify_lock_key(Y[i], (raw % L).to_bytes(32, 'little')): viol(f'verify_lock_key(Y_{i}, y_0 + ... + y_{i} mod L)', inp, 'True', False)
         kk = k
         for i in range(n - 1, 0, -1):
             r = A.release(kk, y[i])
